@@ -3,6 +3,7 @@ package main
 import (
 	"fmt"
 	"go/token"
+	"go/types"
 	"sort"
 	"strings"
 
@@ -561,25 +562,68 @@ func ruleC11Fanout(w *World, r *Report) {
 	// calls = len(pdrs)+len(fars)+len(qers) of the lists iterated, and is what the join counts
 	cs := symOf(jcall.Call.Args[1]).String()
 	r.check(strings.Count(cs, "len(") == 3, "R11.4", fn, "the join counts one completion per rule", w.Pos(jcall.Pos()), cs, "the join count is "+cs)
-	// GRPCJoin counts down by one per completion and returns true at zero only
-	dec := false
+	// GRPCJoin consumes one completion per receive and reports success only when as many arrived as were
+	// announced: a counter that starts at `calls` and goes down by one to zero, or starts at zero and goes up
+	// by one to `calls`
+	var callsParam ssa.Value
+	for _, p := range join.Params {
+		if bt, ok := p.Type().Underlying().(*types.Basic); ok && bt.Kind() == types.Int {
+			callsParam = p
+		}
+	}
+	var step *ssa.BinOp // the counter after one completion
+	down := false
 	allInstrs(join, func(i ssa.Instruction) {
-		if bo, ok := i.(*ssa.BinOp); ok && bo.Op == token.SUB {
-			if k, isK := constInt(bo.Y); isK && k == 1 {
-				dec = true
+		bo, ok := i.(*ssa.BinOp)
+		if !ok || (bo.Op != token.SUB && bo.Op != token.ADD) {
+			return
+		}
+		if k, isK := constInt(bo.Y); !isK || k != 1 {
+			return
+		}
+		phi, ok := bo.X.(*ssa.Phi)
+		if !ok {
+			return
+		}
+		back, initOK := false, false
+		for _, e := range phi.Edges {
+			switch {
+			case e == ssa.Value(bo):
+				back = true
+			case bo.Op == token.SUB && e == callsParam:
+				initOK = true
+			case bo.Op == token.ADD:
+				if k, isK := constInt(e); isK && k == 0 {
+					initOK = true
+				}
 			}
 		}
+		if back && initOK {
+			step, down = bo, bo.Op == token.SUB
+		}
 	})
-	r.check(dec, "R11.4", w.FuncName(join), "one completion is consumed per receive", w.Pos(join.Pos()), "calls--", "GRPCJoin does not count down by one")
+	r.check(step != nil, "R11.4", w.FuncName(join), "one completion is consumed per receive", w.Pos(join.Pos()), "a counter moved by one per receive", "GRPCJoin does not count down by one")
 	for _, ret := range returnsOf(join) {
 		v, isK := constBool(res(ret, 0))
 		if isK && v {
-			g := onlyVia(join, ret, func(a, b *ssa.BasicBlock) bool {
-				_, op, y, ok := edgeFact(a, b)
-				k, isC := constInt(y)
-				return ok && op == token.EQL && isC && k == 0
+			g := step != nil && onlyVia(join, ret, func(a, b *ssa.BasicBlock) bool {
+				x, op, y, ok := edgeFact(a, b)
+				if !ok || op != token.EQL {
+					return false
+				}
+				if y == ssa.Value(step) {
+					x, y = y, x
+				}
+				if x != ssa.Value(step) {
+					return false
+				}
+				if down {
+					k, isC := constInt(y)
+					return isC && k == 0
+				}
+				return y == callsParam
 			})
-			r.check(g, "R11.4", w.FuncName(join), "joined only when the count reached zero", w.Pos(ret.Pos()), "under calls == 0", "GRPCJoin reports success before all completions arrived")
+			r.check(g, "R11.4", w.FuncName(join), "joined only when the count reached zero", w.Pos(ret.Pos()), "under calls == 0 (or joined == calls)", "GRPCJoin reports success before all completions arrived")
 		}
 	}
 }
